@@ -81,6 +81,9 @@ func (fr *Frame) assertsAfterNamed(x *ssa.Call, calleeName string, same func(*ss
 		if a.Callee != calleeName || a.Ord != ord {
 			continue
 		}
+		if fr.top {
+			fr.u.anchored[k] = true
+		}
 		env := fr.contractEnv(fr.params, nil, fr.st, fr.entry)
 		// the call's arguments and result are visible as $arg0.. and $ret
 		for ai, av := range x.Call.Args {
